@@ -198,6 +198,7 @@ func init() {
 		Batches: []batchSpec{
 			{Name: "l1", World: "wire", Weight: 6},
 			{Name: "l2", World: "wire", Weight: 2, Park: 0.003, Gos: 0.02},
+			{Name: "client-plugins", World: "httpplugins", Weight: 1},
 		},
 		Stub:   []string{"network (simnet) with a byte tap on every connection accepted at the server's bind port", "echo / HTTP backend", "users", "scripted peers and a scripted TLS server (crypto/tls, independent of frp's transport code)", "clock"},
 		Real:   append(append([]string{}, commonReal...), "pkg/transport TLS configuration, pkg/util/net TLS dial/listen wrappers, golib crypto + snappy streams"),
